@@ -1,0 +1,10 @@
+//! Verification hooks (only compiled with `--cfg h263_rs_verif`).
+//!
+//! This module adds nothing to the decoder: it re-exports items that already
+//! exist but are private to the crate, so that an external conformance
+//! harness can name the parsed types and drive the reconstruction primitives
+//! directly.
+
+pub use crate::decoder::verif::*;
+pub use crate::parser::verif::*;
+pub use crate::types::*;
